@@ -3,8 +3,8 @@
    Print Assumptions follows every theorem.  numDocs <= 2^64 excludes the (unreachable) collision of a chunk number with the reader's nothing-loaded sentinel math.MaxInt64; dv_visit_needs_bound shows the statement is false without it. *)
 
 From Coq Require Import List NArith Bool Sorting Permutation.
-From Ice Require Import Base Chunk DocValues Spec Run DvWriter.
-From IceProofs Require DocValues_Proofs DvWriter_Proofs.
+From Ice Require Import Base Chunk DocValues Spec Run DvWriter Units.
+From IceProofs Require DocValues_Proofs DvWriter_Proofs Units_Proofs.
 Import ListNotations.
 Open Scope N_scope.
 
@@ -183,3 +183,12 @@ Example merge_dv_example_segments :
     lenN (dv_entries M DvWriter_Proofs.exw_t) = 1022.
 Proof. exact @DvWriter_Proofs.merge_dv_example_segments. Qed.
 Print Assumptions merge_dv_example_segments.
+
+(* a doc-value coder that has written one field, once Reset, writes the next field exactly as a fresh coder would (chunk lengths turned into end offsets by Write are cleared whatever chunks the earlier field used) *)
+Theorem dv_coder_reset_clean :
+    forall (cs max : N) (c0 c : Coder) (ops : list cop),
+    cc_new cs max = Ok c0 ->
+    Units_Proofs.cc_shape cs (length (cc_chunkLens c0)) c ->
+    run_contentcoder (Some c) (CReset :: ops) = 0 :: run_contentcoder (Some c0) ops.
+Proof. exact @Units_Proofs.run_contentcoder_reset. Qed.
+Print Assumptions dv_coder_reset_clean.
